@@ -26,9 +26,15 @@ def assertion(B, rules, skeleton, out, params):
         parts.append((f"op {k} {ent['kind']}: no exception ({ent['rec']['exc']}: {ent['rec'].get('msg')})", B.const(ent["rec"]["exc"] is None)))
     if any(e["rec"]["exc"] is not None for e in tr):
         return parts
-    first = tr[0]
+    # the completing strategy is the op before the final "allseeds" (after an optional plain prefix), or "build" itself
+    first = tr[-2] if len(tr) >= 2 and tr[-1]["kind"] == "allseeds" else tr[0]
     if first["kind"] != "build":
-        parts.append((f"{first['kind']} reports completion", B.const(first["rec"]["ret"] is True)))
+        if len(tr) > 2:
+            # after a prefix of plain calls: the claim is conditional on the strategy reporting completion
+            if first["rec"].get("skipped") or first["rec"]["ret"] is not True:
+                return parts
+        else:
+            parts.append((f"{first['kind']} reports completion", B.const(first["rec"]["ret"] is True)))
     dump = tr[-1]["dump"]
     if first["kind"] == "build":
         seeds = {n["id"]: n["attractor_seeds"] for n in dump["nodes"] if n["expanded"]}
@@ -73,6 +79,12 @@ def tasks(tier, seed, selftest=False):
         # modular networks: a 3-variable component constrained by the solver to have a motif-avoidant attractor,
         # next to an independent switch / source (products are composed from the components' atoms)
         S.append(dict(family="P:MAA3+SW2", skeleton=sk, timebox=40 if q else 900))
+        # after a plain prefix (a node expanded by hand / a limited BFS): the strategies that walk the diagram from the
+        # root are complete from any partially expanded diagram (expand_block is not, cf. C03, and is not claimed here)
+        if st in ("fullbfs", "fulldfs", "sccd", "faseeds"):
+            for pre in ("succ", "bfs"):
+                S.append(dict(family="U2", skeleton=(pre,) + sk, timebox=6 if q else 300))
+                S.append(dict(family="D3", skeleton=(pre,) + sk, timebox=8 if q else 600))
         # inputs presented as free inputs (variables without update function)
         S.append(dict(family="D3", skeleton=sk, timebox=10 if q else 600, tag="free-inputs", params={"free_inputs": True}))
         S.append(dict(family="S1C2", skeleton=sk, timebox=10 if q else 600, tag="free-inputs", params={"free_inputs": True}))
